@@ -41,9 +41,15 @@ func c04Prepare(caseID int, idx int, behaviour, proto, launch string, managed bo
 		pcfg["neverExit"] = behaviour == "never"
 	case "failed-handshake":
 		pcfg = map[string]any{"mode": "raw", "lineHex": "6761726261676520686572650a", "after": "hang"}
+	case "start-timeout-partial-line":
+		// "1|1|tcp" without a newline, then silence: Start times out with a token still to come
+		pcfg = map[string]any{"mode": "raw", "lineHex": "317c317c746370", "after": "hang"}
 	}
 	cfg := baseClientConfig()
 	cfg.GRPCBrokerMultiplex = mux
+	if behaviour == "start-timeout-partial-line" {
+		cfg.StartTimeout = 500 * time.Millisecond
+	}
 	cfg.Managed = managed && launch != "reattach"
 	hostSetFor(cfg, wire)
 	ln := launch
@@ -54,7 +60,7 @@ func c04Prepare(caseID int, idx int, behaviour, proto, launch string, managed bo
 	s.l = l
 	s.killer = l.Client
 	_, err := l.Client.Start()
-	if behaviour == "failed-handshake" {
+	if behaviour == "failed-handshake" || behaviour == "start-timeout-partial-line" {
 		if err == nil {
 			s.obs.SetupErr = "handshake unexpectedly succeeded"
 		}
